@@ -2,7 +2,7 @@
 # usage: keep_seed.py <seed-dir-id> <dest-id> "<caught by checks>" "<how I confirmed>"
 import json,sys,shutil,os
 sid,dest,caught,ran=sys.argv[1:5]
-src=f'/tmp/seed-{sid}/out'; dst=f'/verif/seeded/{dest}'
+src=f'{os.environ.get("SEEDROOT","/tmp/seed")}-{sid}/out'; dst=f'/verif/seeded/{dest}'
 os.makedirs(dst,exist_ok=True)
 for f in ('patch.diff','demo.diff'): shutil.copy(f'{src}/{f}',f'{dst}/{f}')
 m=json.load(open(f'{src}/meta.json'))
